@@ -72,10 +72,28 @@ def moveSubtree (fs : Fs) (src dst : Path) : Fs :=
   let rest := rest.filter (fun e => !dst.isPrefixOf e.1)
   rest ++ moved.map (fun e => (dst ++ e.1.drop src.length, e.2))
 
-/-- `rename(source, destination)` : returns (new tree, ok?) — the tree may change even when it fails -/
+/-- `rename(source, destination)` : returns (new tree, ok?).  As repaired in /repo (finding F7 a, b, d): the
+    source must exist (also when both paths are the same), the destination's parent must be a directory, a
+    directory cannot be moved below itself — each refused before anything is detached. -/
 def rename (fs : Fs) (src dst : Path) : Fs × Bool :=
+  match lookup fs src with
+  | none => (fs, false)                               -- `snode is None`: FileNotFoundError
+  | some _ =>
+    if src = dst then (fs, true)
+    else if src = [] ∨ dst = [] then (fs, false)      -- root as either end: not reachable through RNFR/RNTO guards
+    else
+      match lookup fs dst.dropLast with
+      | none => (fs, false)                           -- FileNotFoundError
+      | some (.file _) => (fs, false)                 -- NotADirectoryError
+      | some .dir =>
+        if src.isPrefixOf dst then (fs, false)        -- EINVAL: `source in destination.parents`
+        else if !exists_ fs src.dropLast then (fs, false)
+        else (moveSubtree fs src dst, true)
+
+/-- `rename` as it was on the pinned tree: the tree may change even when it fails (kept for the witnesses) -/
+def renameOld (fs : Fs) (src dst : Path) : Fs × Bool :=
   if src = dst then (fs, true)
-  else if src = [] ∨ dst = [] then (fs, false)   -- root as either end: not reachable through RNFR/RNTO guards; reported as failure
+  else if src = [] ∨ dst = [] then (fs, false)
   else
     let sparentOk := exists_ fs src.dropLast
     let dparent := lookup fs dst.dropLast
@@ -85,7 +103,6 @@ def rename (fs : Fs) (src dst : Path) : Fs × Bool :=
     | _, none => (fs, false)
     | some _, some dp =>
       if !sparentOk then (fs, false) else
-      -- source detached first
       let detached := fs.filter (fun e => !src.isPrefixOf e.1)
       match dp with
       | .file _ => (detached, false)             -- `dparent.content` is a BytesIO: AttributeError after the pop
@@ -94,7 +111,7 @@ def rename (fs : Fs) (src dst : Path) : Fs × Bool :=
         else (moveSubtree fs src dst, true)
 
 /-- `_open(path, mode)` outcome: the tree after opening and the content the handle starts with;
-    `none` = exception. modes: 0 rb, 1 wb, 2 ab, 3 r+b -/
+    `none` = exception. modes: 0 rb, 1 wb, 2 ab, 3 r+b.  As repaired (F7 c): `r+b` never creates. -/
 def openFile (fs : Fs) (p : Path) (mode : Nat) : Option (Fs × Bytes × Nat) :=
   match mode with
   | 0 => match lookup fs p with
@@ -105,7 +122,23 @@ def openFile (fs : Fs) (p : Path) (mode : Nat) : Option (Fs × Bytes × Nat) :=
     if p = [] then none else
     match lookup fs p with
     | none =>
-      if isDir fs p.dropLast then some (fs ++ [(p, .file [])], [], 0) else none
+      if mode = 1 ∨ mode = 2 then
+        (if isDir fs p.dropLast then some (fs ++ [(p, .file [])], [], 0) else none)
+      else none                       -- `r+b` on a missing file: FileNotFoundError
+    | some .dir => none
+    | some (.file c) =>
+      if mode = 1 then some (set fs p (.file []), [], 0)
+      else if mode = 2 then some (fs, c, c.length)
+      else some (fs, c, 0)
+
+/-- `_open` as it was on the pinned tree: `r+b` created a missing file (kept for the witness) -/
+def openFileOld (fs : Fs) (p : Path) (mode : Nat) : Option (Fs × Bytes × Nat) :=
+  match mode with
+  | 0 => openFile fs p 0
+  | _ =>
+    if p = [] then none else
+    match lookup fs p with
+    | none => if isDir fs p.dropLast then some (fs ++ [(p, .file [])], [], 0) else none
     | some .dir => none
     | some (.file c) =>
       if mode = 1 then some (set fs p (.file []), [], 0)
